@@ -9,6 +9,9 @@
                          exception), "died" (the process was killed by a signal),
                      touch the number of dlsym()/dlclose() calls the operation made with
                          lib's handle or with a NULL handle (observed by an interposer).
+   A lib may have been opened by path or from an existing 'void *' handle (whose dlopen() reference
+   belongs to the program): the clauses are the same whatever the origin; whether dlclose(3) is
+   called by the first close is not constrained.
    Where the property text is silent (everything while lib is open, addressof, functions that
    were fetched before the close) the guard is TRUE.
    Every action is split into a guard (clause of the property) and an effect. *)
@@ -55,17 +58,18 @@ CloseE(l, out)        == /\ ls' = (IF out = "ok" THEN [ls EXCEPT ![l] = "closed"
 
 Ev(e, l, n, out, touch) == last' = [ev |-> e, l |-> l, n |-> n, out |-> out, touch |-> touch]
 
-INext == \E l \in Libs, out \in Outs, touch \in 0..2 :
-           \/ OpenG(l, out, touch) /\ OpenE(l, out) /\ Ev("open", l, "", out, touch)
-           \/ CloseG(l, out, touch) /\ CloseE(l, out) /\ Ev("close", l, "", out, touch)
-           \/ \E f \in Funcs :
-                \/ GetFuncG(l, f, out, touch) /\ GetFuncE(l, f, out) /\ Ev("getfunc", l, f, out, touch)
-                \/ CallG(l, f, out, touch) /\ CallE(l, f, out) /\ Ev("call", l, f, out, touch)
-           \/ \E v \in Vars :
-                \/ ReadVarG(l, v, out, touch) /\ ReadVarE(l, v, out) /\ Ev("readvar", l, v, out, touch)
-                \/ WriteVarG(l, v, out, touch) /\ WriteVarE(l, v, out) /\ Ev("writevar", l, v, out, touch)
-           \/ \E n \in Funcs \cup Vars :
-                AddressOfG(l, n, out, touch) /\ AddressOfE(l, n, out) /\ Ev("addressof", l, n, out, touch)
+\* The next-state relation, written over the event published in last' (logically the same as
+\* quantifying existentially over the lib, the name, the outcome and the number of loader calls).
+INext == LET e == last' IN
+           /\ e.l \in Libs /\ e.out \in Outs /\ e.touch \in Nat
+           /\ \/ e.ev = "open" /\ e.n = "" /\ OpenG(e.l, e.out, e.touch) /\ OpenE(e.l, e.out)
+              \/ e.ev = "close" /\ e.n = "" /\ CloseG(e.l, e.out, e.touch) /\ CloseE(e.l, e.out)
+              \/ e.ev = "getfunc" /\ e.n \in Funcs /\ GetFuncG(e.l, e.n, e.out, e.touch) /\ GetFuncE(e.l, e.n, e.out)
+              \/ e.ev = "call" /\ e.n \in Funcs /\ CallG(e.l, e.n, e.out, e.touch) /\ CallE(e.l, e.n, e.out)
+              \/ e.ev = "readvar" /\ e.n \in Vars /\ ReadVarG(e.l, e.n, e.out, e.touch) /\ ReadVarE(e.l, e.n, e.out)
+              \/ e.ev = "writevar" /\ e.n \in Vars /\ WriteVarG(e.l, e.n, e.out, e.touch) /\ WriteVarE(e.l, e.n, e.out)
+              \/ e.ev = "addressof" /\ e.n \in Funcs \cup Vars /\ AddressOfG(e.l, e.n, e.out, e.touch)
+                 /\ AddressOfE(e.l, e.n, e.out)
 
 ISpec == IInit /\ [][INext]_ivars
 
